@@ -7,6 +7,7 @@ import (
 	"encoding/binary"
 	"encoding/hex"
 	"fmt"
+	"github.com/cosmos/cosmos-sdk/codec"
 	"strings"
 
 	"github.com/btcsuite/btcutil/base58"
@@ -574,6 +575,23 @@ func (w *World) checkDIDCommitted() error {
 				return vio(prop, "read of %s returned a document different from the last accepted one", d)
 			}
 		}
+	}
+	return nil
+}
+
+// LoadGenesis derives the DID model from a did genesis section: one entry per map key.
+func (m *DidModel) LoadGenesis(cdc codec.JSONCodec, raw []byte) error {
+	var gs didtypes.GenesisState
+	if err := cdc.UnmarshalJSON(raw, &gs); err != nil {
+		return err
+	}
+	for k, d := range gs.Documents {
+		e := &DidEntry{DID: k, Doc: d.Document, Seq: d.Sequence}
+		if d.Document != nil {
+			e.DocBytes, _ = d.Document.Marshal()
+		}
+		e.Tombstone = (d.Document == nil || d.Document.Id == "") && d.Sequence != 0
+		m.Entries[k] = e
 	}
 	return nil
 }
